@@ -59,10 +59,12 @@ def main():
         'engines': [
             {'name': 'hypothesis', 'path': '/verif/run_check.py', 'serves_properties': [c['property_id'] for c in checks],
              'kind_free_text': 'Hypothesis 6.168 property-based testing (structured and stateful generation, shrinking), sharded over 16 processes with seeds derived from VERIF_SEED'},
+            {'name': 'atheris', 'path': '/verif/vlib/runner.py', 'serves_properties': [c['property_id'] for c in checks if c['property_id'] in ('C10', 'C11')],
+             'kind_free_text': 'atheris 3.1 / libFuzzer coverage-guided stage of the thorough tier (Ctx.fuzz): libFuzzer mutates the byte stream behind the same Hypothesis strategy (fuzz_one_input) with giscanner.* instrumented for edge coverage; same oracles; skipped and reported when the wheel cannot be installed'},
         ],
         'checks': checks,
         'not_applicable': na,
-        'notes': 'run_check.py <ID> --tier quick|thorough [--replay file]; exit 0 held / 1 violation / 2 harness error. See DESIGN.md.',
+        'notes': 'run_check.py <ID> --tier quick|thorough [--replay file]; exit 0 held / 1 violation / 2 harness error. Known findings (open and fixed) are listed in /verif/known_findings.json, open witnesses under /verif/known/<ID>/, fixed ones are replayed from /verif/replay/<ID>/fixed-*; independent bug injections and what caught them under /verif/seeded/. See DESIGN.md sections 8-10.',
     }
     with open(os.path.join(VERIF, 'MANIFEST.json'), 'w') as f:
         json.dump(man, f, indent=1)
